@@ -34,7 +34,7 @@ func (fr *Frame) prepare() {
 }
 
 func (e *Engine) newVC(name string, props []string) *VC {
-	return &VC{curBlk: -1, u: e.u, eng: e, fnName: name, props: props, assumed: map[string]bool{}, inlined: map[string]bool{},
+	return &VC{curBlk: -1, cutFacts: map[int]bool{}, u: e.u, eng: e, fnName: name, props: props, assumed: map[string]bool{}, inlined: map[string]bool{},
 		uncontr: map[string]bool{}, pureSeen: map[string]bool{}, implSeen: map[string]bool{}}
 }
 
